@@ -10,7 +10,8 @@ def handlers : List (String × (List String → Option String)) :=
     ("capacity", Coverage.handleCapacity), ("propcov", Coverage.handlePropcov), ("effcov", Coverage.handleEffcov),
     ("covout", Covout.handle),
     ("expr-accept", Expr.handle "expr-accept"), ("expr-eval", Expr.handle "expr-eval"), ("plotstr", Expr.handle "plotstr"),
-    ("rng", Rng.handle) ]
+    ("rng", Rng.handle),
+    ("agg", Aggregate.handle), ("cascade", Cascade.handle) ]
 
 /-- One request per line: `<kind> <args…>`; one canonical reply per line. -/
 def dispatch (line : String) : String :=
